@@ -23,7 +23,7 @@ pub fn checks() -> Vec<Check> {
         assumptions: &["security/muxing stubbed (E2 stack)", "the model follows the server's accept/refuse answers (only the clauses of the property are judged, not whether every admissible request is accepted)"],
         real: &["rendezvous server Behaviour, its request-response handler and codec, signed peer record validation"],
         stub: &["transport/security/muxer -> SimTransport/SimMuxer", "rendezvous clients -> scripted frames", "clock -> virtual"],
-        scenarios: vec![Scenario::new("rendezvous-server", 300, 30_000, rendezvous_server)],
+        scenarios: vec![Scenario::new("rendezvous-server", 300, 30_000, rendezvous_server), Scenario::new("rendezvous-server-full-stack", 60, 6_000, rendezvous_server_full)],
     }]
 }
 
@@ -95,7 +95,16 @@ enum Pending {
 }
 
 fn rendezvous_server() -> SimResult {
+    run_rendezvous(Stack::Stub)
+}
+
+fn rendezvous_server_full() -> SimResult {
+    run_rendezvous(Stack::draw_full())
+}
+
+fn run_rendezvous(stack: Stack) -> SimResult {
     begin();
+    crate::full::reset(false);
     draw_policy();
     net::with_net(|n| n.faults = false);
     let min_ttl = 1 + choose(5) as u64;
@@ -103,7 +112,7 @@ fn rendezvous_server() -> SimResult {
     let max_peer = 1 + choose(3);
     let max_total = 2 + choose(5);
     note_val("limits", min_ttl + 8 * (max_ttl / 10) + 128 * max_peer as u64 + 512 * max_total as u64);
-    let server = PNode::new(|_| rendezvous::server::Behaviour::new(rendezvous::server::Config::default().with_min_ttl(min_ttl).with_max_ttl(max_ttl).with_max_registration_per_peer(max_peer).with_max_registration_total(max_total)), &steady_knobs());
+    let server = PNode::make(stack, libp2p_identity::Keypair::generate_ed25519(), |_| rendezvous::server::Behaviour::new(rendezvous::server::Config::default().with_min_ttl(min_ttl).with_max_ttl(max_ttl).with_max_registration_per_peer(max_peer).with_max_registration_total(max_total)), &steady_knobs());
     let saddr = server.listen();
     let speer = server.peer;
     let nclients = 2 + choose(3);
@@ -115,7 +124,7 @@ fn rendezvous_server() -> SimResult {
         .map(|_| {
             let shared: Shared = Arc::new(Mutex::new(ScriptShared::default()));
             let s2 = shared.clone();
-            Cl { node: PNode::new(move |_| Script::new(s2), &steady_knobs()), shared }
+            Cl { node: PNode::make(stack, libp2p_identity::Keypair::generate_ed25519(), move |_| Script::new(s2), &steady_knobs()), shared }
         })
         .collect();
     run_until_idle();
@@ -176,9 +185,9 @@ fn rendezvous_server() -> SimResult {
                 8 => {
                     // fault: the client's connection is reset; it dials again (registrations are per peer, not per connection)
                     if fault("transport_reset", 500) {
-                        let n = net::conn_count();
+                        let n = stack.conn_count();
                         if n > 0 {
-                            net::reset_conn(choose(n));
+                            stack.reset_conn(choose(n));
                         }
                         settle(Duration::from_millis(5));
                     }
@@ -288,6 +297,9 @@ fn rendezvous_server() -> SimResult {
     }
     if accepted > 0 && refused > 0 && discovered > 0 {
         mark_nontrivial();
+    }
+    if stack != Stack::Stub && accepted > 0 && discovered > 0 {
+        probe("full-stack-request-accepted");
     }
     Ok(())
 }
